@@ -22,17 +22,41 @@ type Pair struct { .X: i32, .Y: i32 };
 fn id(x: &i32) -> &i32 { return x; }
 fn mutI(r: &'i32) { r = 5; }
 fn readI(r: &i32) { io::Println(r); }
+fn yes() -> bool { return true; }
+fn no() -> bool { return false; }
+fn one() -> i32 { return 1; }
 '''
+# Syntactic contexts for a use of a reference (each executes its body exactly once, decided at run time by
+# opaque calls): the loan rules and the prescribed output do not depend on where in a statement tree the use
+# is written.  (open, close) around the statement.
+USE_CONTEXTS = {
+    "ifthen": (["if yes() {"], ["}"]),
+    "else": (["if no() {", "} else {"], ["}"]),
+    "elseif": (["if no() {", "} else if yes() {"], ["}"]),
+    "elseifelse": (["if no() {", "} else if no() {", "} else {"], ["}"]),
+    "match": (["match one() {", "    1 => {"], ["    }", "    _ => {", "    }", "}"]),
+    "matchdflt": (["match one() {", "    7 => {", "    }", "    _ => {"], ["    }", "}"]),
+    "block2": (["{", "    {"], ["    }", "}"]),
+}
 BORROW_DIAG = re.compile(r"borrow|while it is|reference to local|already bound|cannot access|outlive", re.I)
 
 
-def render(events):
+def render(events, ctx=None, which="last"):
+    """ctx: name of a USE_CONTEXTS entry; which: the last use / write-through of a reference, or all of them."""
     out = ["fn main() {", "    let a: i32 = 1;", "    let p: Pair = { .X = 2, .Y = 3 };", "    let arr: [2]i32 = [5, 6];"]
     ind = 1
     nloop = 0
-    for e in events:
+    uses = [i for i, e in enumerate(events) if e["k"] in ("use", "wt")]
+    wrapped = set(uses[-1:] if which == "last" else uses) if ctx else set()
+    for ei, e in enumerate(events):
         pad = "    " * ind
         k = e["k"]
+        if ei in wrapped:
+            op, cl = USE_CONTEXTS[ctx]
+            deep = max(len(l) - len(l.lstrip()) for l in op) // 4 + 1
+            stmt = "io::Println(%s);" % e["r"] if k == "use" else "%s = %d;" % (e["r"], e["v"])
+            out += [pad + l for l in op] + [pad + "    " * deep + stmt] + [pad + l for l in cl]
+            continue
         if k == "bs":
             out.append("%slet %s: &i32 = &%s;" % (pad, e["r"], e["pl"]))
         elif k == "bm":
@@ -146,7 +170,12 @@ def run(tier, seed, replay=None):
     if replay:
         with open(replay) as f:
             rk = json.load(f)["replay"]["events_key"]
-        cases = [c for c in cases if c["key"] == rk]
+        base, _, rest = rk.partition("@")
+        cases = [dict(c) for c in cases if c["key"] == base]
+        if rest:
+            for c in cases:
+                c["ctx"], c["which"] = rest.split("/")
+                c["key"] = rk
     elif tier == "quick":
         # stratified by spec-level class and verdict, so that every kind of loan gets its share
         strata = {}
@@ -160,13 +189,32 @@ def run(tier, seed, replay=None):
     else:
         rnd.shuffle(cases)
         cases = cases[:90000]
+    # the same cases with a use of a reference written inside another syntactic context (rotating over the
+    # contexts; every context gets cases of every verdict and spec-level class)
+    if not replay:
+        ctxs = sorted(USE_CONTEXTS)
+        withuse = [c for c in cases if c["verdict"] != "either" and any(e["k"] in ("use", "wt") for e in c["events"])]
+        per = {}
+        nvar = 0
+        for c in withuse:
+            k = (finding_class(c["events"]), c["verdict"])
+            per[k] = per.get(k, 0) + 1
+            if tier == "quick" and per[k] > 6 * len(ctxs):
+                continue
+            v = dict(c)
+            v["ctx"] = ctxs[(per[k] - 1) % len(ctxs)]
+            v["which"] = "last" if (per[k] // len(ctxs)) % 2 == 0 else "all"
+            v["key"] = c["key"] + "@" + v["ctx"] + "/" + v["which"]
+            cases.append(v)
+            nvar += 1
     pool = fesrv.Pool(env)
     jobs = []
     for c in cases:
         d = env.tmpdir("c07")
         p = os.path.join(d, "m.fer")
+        c["_src"] = render(c["events"], c.get("ctx"), c.get("which", "last"))
         with open(p, "w") as f:
-            f.write(render(c["events"]))
+            f.write(c["_src"])
         c["_p"] = p
         jobs.append({"entry": p, "skip": True})
     obs = pool.compile_many(jobs)
@@ -179,7 +227,7 @@ def run(tier, seed, replay=None):
         cnt[v] += 1
         if v == "illegal":
             if o["cls"] == "ACCEPT":
-                cand.setdefault("C07|accepts-illegal|" + finding_class(c["events"]), []).append(c)
+                cand.setdefault("C07|accepts-illegal|" + finding_class(c["events"]) + ("|in-" + c["ctx"] if c.get("ctx") and finding_class(c["events"]) != "call-returned-ref" else ""), []).append(c)
             else:
                 n_ill_rej += 1
         elif v == "legal":
@@ -192,19 +240,19 @@ def run(tier, seed, replay=None):
                     chk.fail("C07|rejects-legal|" + finding_class(c["events"]),
                              "a program that respects the rules is rejected with a borrow diagnostic (%s): %s"
                              % (o["errors"][0]["msg"][:80], c["key"]),
-                             {"events_key": c["key"], "program": render(c["events"])})
+                             {"events_key": c["key"], "program": c["_src"]})
                 else:
                     n_void += 1
             else:
                 chk.fail("C07|compiler-" + o["cls"], "compiler %s on %s" % (o["cls"], c["key"]),
-                         {"events_key": c["key"], "program": render(c["events"])})
+                         {"events_key": c["key"], "program": c["_src"]})
     # confirm wrongly accepted programs through the CLI (a few per spec-level class, in parallel)
     todo = [(k, c) for k, cs in sorted(cand.items()) for c in cs[:3]]
     for (k, c), o2 in zip(todo, core.pmap(lambda kc: env.compile(kc[1]["_p"], typecheck_only=True), todo, workers=8)):
         if o2["cls"] == "ACCEPT":
             chk.fail(k, "a program in which a conflicting access happens while the reference is still used later is "
                      "accepted (%d programs of this class): %s" % (len(cand[k]), c["key"]),
-                     {"events_key": c["key"], "program": render(c["events"])})
+                     {"events_key": c["key"], "program": c["_src"]})
     # write-through visibility on legal, accepted programs
     rnd.shuffle(runnable)
     runnable = runnable[:150 if tier == "quick" else 3000]
@@ -226,7 +274,7 @@ def run(tier, seed, replay=None):
             arrw = any(e["k"] in ("wr", "wt", "tm") and "arr" in str(e.get("pl", "")) for e in c["events"])
             chk.fail("C07|visibility|" + ("arr-element" if arrw else finding_class(c["events"])),
                      "legal program prints %s, the specification prescribes %s (exit %s): %s" % (got, want, r["cls"], c["key"]),
-                     {"events_key": c["key"], "program": render(c["events"])})
+                     {"events_key": c["key"], "program": c["_src"]})
         else:
             n_run_ok += 1
     # last clause: references to locals must not be returned
